@@ -508,4 +508,34 @@ def rule_k(ctx: Ctx) -> None:
                 '`isinstance(comp, XsdAttribute)` being true.')
 
 
-RULES = [rule_a, rule_b, rule_c, rule_d, rule_e, rule_f, rule_g, rule_h, rule_i, rule_j, rule_k]
+def rule_l(ctx: Ctx) -> None:
+    """An identity constraint is enforced per occurrence of its scope element: when the scope element is met again the counter is re-armed *completely* - tuples
+    dropped, cached selection dropped, element set, enabled - whatever the previous occurrence collected.  A stale selection (`elements`) from an occurrence that
+    yielded no tuple makes collect_key_fields skip every node of the next one."""
+    rule = 'C08.l'
+    f = ctx.idx.method('xmlschema.validators.identities.IdentityCounter', 'reset')
+    ctx.analysed(f.qualname)
+    g = cfg_of(ctx, f)
+    need = {
+        'tuples dropped': lambda n: any(isinstance(c.func, ast.Attribute) and text(c.func) == 'self.counter.clear' for e in n.exprs for c in calls(e))
+        or (n.kind == 'stmt' and isinstance(n.ast, ast.Assign) and text(n.ast.targets[0]) == 'self.counter'),
+        'cached selection dropped': lambda n: n.kind == 'stmt' and isinstance(n.ast, ast.Assign) and any(text(t) == 'self.elements' for t in n.ast.targets)
+        and isinstance(n.ast.value, ast.Constant) and n.ast.value.value is None,
+        'scope element set': lambda n: n.kind == 'stmt' and isinstance(n.ast, ast.Assign) and any(text(t) == 'self.elem' for t in n.ast.targets),
+        'counter enabled': lambda n: n.kind == 'stmt' and isinstance(n.ast, ast.Assign) and any(text(t) == 'self.enabled' for t in n.ast.targets)
+        and isinstance(n.ast.value, ast.Constant) and n.ast.value.value is True,
+    }
+    for what, pred in need.items():
+        nodes = [n for n in g.nodes if pred(n)]
+        w = g.must_pass(g.entry, [g.exit], nodes, kinds='nTF') if nodes else [g.entry]
+        ok = bool(nodes) and w is None
+        if not ok and nodes and what == 'tuples dropped':
+            # clearing only a non-empty counter is the same thing
+            ok = all(guards(ctx, f, n_) <= {('self.counter', 'T'), ('not self.counter', 'F'), ('len(self.counter) > 0', 'T')} for n_ in nodes)
+        ctx.ob(rule, f'IdentityCounter.reset: {what} on every path', f.loc(nodes[0].ast) if nodes else f.loc(), ok,
+               '' if ok else 'a path through reset() leaves this part of the previous occurrence in place: e.g. the selection cached for a group whose items had no field value '
+               'survives, the items of the next group are "not selected" and duplicates or dangling references in it pass', key=f'IdentityCounter.reset|{what}')
+    ctx.explain('C08.l: must-pass-through in IdentityCounter.reset - clearing the tuples, `self.elements = None`, `self.elem = …` and `self.enabled = True` lie on every path to the exit.')
+
+
+RULES = [rule_a, rule_b, rule_c, rule_d, rule_e, rule_f, rule_g, rule_h, rule_i, rule_j, rule_k, rule_l]
